@@ -35,6 +35,15 @@ let handle (toks : string list) : (string * string * string) option =
        Some (string_of_res string_of_z r, string_of_res string_of_z (conv_spec s v),
              path ^ ":" ^ branch_name (conv_branch s k))
      | _ -> Some ("NOCOMPILE", "NOCOMPILE", "nomap"))
+  | ["storemix"; a; k; f; v] ->
+    (* a plain value of kind f stored through a tainted pointer to k: one checked conversion f -> sandbox(k) *)
+    let a = abi_of_string a and k = kind_of_string k and f = kind_of_string f and v = z_of_string v in
+    (match sbx_equiv a k with
+     | Some s when not (n2_pair s f) ->
+       Some (string_of_res string_of_z (conv s f v), string_of_res string_of_z (conv_spec s v),
+             "storemix:" ^ branch_name (conv_branch s f))
+     | Some _ -> Some ("SKIP", "SKIP", "storemix:n2-outside")
+     | None -> Some ("NOCOMPILE", "NOCOMPILE", "nomap"))
   | [("load" | "ret" | "cbarg") as path; a; k; v] ->
     let a = abi_of_string a and k = kind_of_string k and v = z_of_string v in
     (match to_app a k v, sbx_equiv a k with
